@@ -105,7 +105,7 @@ def first_max(cost, y, x, r) -> "bool":
             and all(isnan(cost[y, x, k]) or cost[y, x, k] < cost[y, x, r] for k in range(r)))
 
 
-@contract("pandora.disparity.disparity.WinnerTakesAll.to_disp", props=["C03"])
+@contract("pandora.disparity.disparity.WinnerTakesAll.to_disp", props=["C03", "C09"])
 def _(self, cv, img_left, img_right):
     types(self={"@attrs": {"_invalid_disparity": "float"}},
           cv={"vars": {"cost_volume": "f32[:,:,:]", "validity_mask": "u16[:,:]", "confidence_measure": "f32[:,:,:]"},
@@ -117,6 +117,10 @@ def _(self, cv, img_left, img_right):
     requires("finite_or_nan", all(not isinf(cv["cost_volume"].data[y, x, k]) for y in range(cv["cost_volume"].data.shape[0])
                                   for x in range(cv["cost_volume"].data.shape[1]) for k in range(cv["cost_volume"].data.shape[2])))
     requires("measure", cv.attrs["type_measure"] == "min" or cv.attrs["type_measure"] == "max")
+    # the first and last samples bound the disparity axis (grid_estimation builds it increasing, with np.arange)
+    requires("axis_bounds", all(cv.coords["disp"].data[0] <= cv.coords["disp"].data[k]
+                                and cv.coords["disp"].data[k] <= cv.coords["disp"].data[cv.coords["disp"].data.shape[0] - 1]
+                                for k in range(cv.coords["disp"].data.shape[0])))
     assigns(cv)
     raises_never()
     # C03: a pixel with a computable cost gets the sampled disparity of the first best cost; others exactly invalid_disparity
@@ -128,6 +132,12 @@ def _(self, cv, img_left, img_right):
                   else first_min(cv["cost_volume"].data, y, x, r))
              for r in range(cv["cost_volume"].data.shape[2])))
         for y in range(cv["cost_volume"].data.shape[0]) for x in range(cv["cost_volume"].data.shape[1])))
+    # C09: right after the disparity step a pixel with a computable cost lies inside the sampled interval
+    ensures("within_interval", all(
+        cv.coords["disp"].data[0] <= result["disparity_map"].data[y, x]
+        and result["disparity_map"].data[y, x] <= cv.coords["disp"].data[cv.coords["disp"].data.shape[0] - 1]
+        for y in range(cv["cost_volume"].data.shape[0]) for x in range(cv["cost_volume"].data.shape[1])
+        if not all(isnan(cv["cost_volume"].data[y, x, k]) for k in range(cv["cost_volume"].data.shape[2]))))
     # the step leaves the cost volume values unchanged (NaN substituted then restored)
     ensures("cost_volume_unchanged", all(eq(cv["cost_volume"].data[y, x, k], old(cv["cost_volume"].data)[y, x, k])
                                          for y in range(cv["cost_volume"].data.shape[0]) for x in range(cv["cost_volume"].data.shape[1])
